@@ -34,6 +34,16 @@ def load_pysyncobj(repo):
 _ORIG = {}
 
 
+class SimCustomError(Exception):
+    """An application exception whose constructor takes more than a message (pickles, but
+    `pickle.loads` re-creates it with one argument and fails)."""
+
+    def __init__(self, key, op):
+        Exception.__init__(self, "no such key %r for %s" % (key, op))
+        self.key = key
+        self.op = op
+
+
 def restore_runtime():
     """Undo the clock / randomness patches of the last Sim (components that need real time run after
     components that used a simulator in the same process)."""
@@ -141,6 +151,31 @@ class Sim(object):
                 sim.execs[self._nid].append((self.raftLastApplied + 1, ("boom", x)))
                 self.log.append(("boom", x))
                 raise ValueError(x)
+
+            # raising methods of other shapes: no argument, two arguments, keyword-only use, custom exception
+            @so.replicated
+            def boom0(self):
+                sim.execs[self._nid].append((self.raftLastApplied + 1, ("boom", "b0")))
+                self.log.append(("boom", "b0"))
+                raise IndexError("pop from empty list")
+
+            @so.replicated
+            def boom2(self, x, y):
+                sim.execs[self._nid].append((self.raftLastApplied + 1, ("boom", x)))
+                self.log.append(("boom", x))
+                raise KeyError((x, y))
+
+            @so.replicated
+            def boomkw(self, x=None, y=None):
+                sim.execs[self._nid].append((self.raftLastApplied + 1, ("boom", x)))
+                self.log.append(("boom", x))
+                raise ValueError("%r %r" % (x, y))
+
+            @so.replicated
+            def boomc(self, x):
+                sim.execs[self._nid].append((self.raftLastApplied + 1, ("boom", x)))
+                self.log.append(("boom", x))
+                raise SimCustomError(x, "rename")
         return Obj
 
     def _conf(self, i):
@@ -324,6 +359,23 @@ class Sim(object):
             sim.callbacks.append((i, cid, res, err))
         kw = {"callback": cb} if with_cb else {}
         self._call(i, getattr(self.objs[i], method), x, **kw)
+        return cid
+
+    def submit_call(self, i, method, args=(), kwargs=None, tag=None):
+        """Generic submission: obj.<method>(*args, **kwargs, callback=cb); `tag` is what the monitors see as
+        the command value (default: first positional or keyword argument)."""
+        self.cb_seq += 1
+        cid = self.cb_seq
+        kwargs = dict(kwargs or {})
+        if tag is None:
+            tag = args[0] if args else (kwargs.get("x") if "x" in kwargs else "b0")
+        self.trace.append(["submit", i, tag, method, cid])
+        sim = self
+
+        def cb(res, err, cid=cid, i=i):
+            sim.callbacks.append((i, cid, res, err))
+        kwargs["callback"] = cb
+        self._call(i, getattr(self.objs[i], method), *args, **kwargs)
         return cid
 
     def compact(self, i):
